@@ -274,6 +274,18 @@ def type_records(case, file="types.h", base="types.h", via_ptr=None, all_via_ptr
     return res
 
 
+def member_names(case):
+    """names of the data members of both programs as libabigail may name them (qualified and plain)"""
+    res = set()
+    for sfx in ("", "2"):
+        for t in case["types" + sfx]:
+            if t["k"] in ("struct", "union"):
+                for m in t["m"]:
+                    res.add("m%d" % m["n"])
+                    res.add("%s::m%d" % (type_name(t), m["n"]))
+    return sorted(res)
+
+
 def tchange(name, kind, file, base, via_ptr, old=None, new=None, size_old=0, size_new=0):
     return {"name": name, "kind": kind, "file": file, "base": base, "viaPtr": via_ptr, "old": old or [], "new": new or [],
             "sizeOld": size_old, "sizeNew": size_new}
@@ -419,6 +431,9 @@ def validate(c, events, case_of=None, chunk=2500):
                 vd[v] = vd.get(v, 0) + 1
                 if ev is not None:
                     ev["_verdict"] = v
+                    if os.environ.get("VERIF_KEEP_REJECTED"):        # debugging aid: every rejected event, not only the first 25
+                        with open(os.environ["VERIF_KEEP_REJECTED"], "a") as f:
+                            f.write(json.dumps(ev) + "\n")
                 c.violation("trace %s rejected at event %d (%s)" % (TRACE[0], i0 + i, v), ev, case_of)
         for (i, ev, kid) in r["kf"]:
             if kid in listed:
